@@ -2,7 +2,7 @@
 from fractions import Fraction as F
 import core
 from core import Spec, standard_check, zlist, optlit, boollit, qlit, qlist
-from c04common import (FAMILIES, conversion, prod, slc, FULL, py_index, in_grammar, chain_eval)
+from c04common import (FAMILIES, conversion, prod, slc, FULL, py_index, in_grammar, chain_eval, om_bounds_ok)
 
 
 def item_term(it):
@@ -56,7 +56,8 @@ class C04(Spec):
             '1-3 sink components at depth 0-2, every input connected by connect(src_indices) + 0-2 promotes levels '
             'with src_indices, or implicitly by promotion, or left to an auto-IVC (with src_shape, shared names, '
             'set_input_defaults); index forms int/slice/array/tuple/ellipsis with negative entries, flat, non-flat '
-            'and default flat_src_indices; run-once and NonlinearBlockGS (3 iterations with changing sources); '
+            'and default flat_src_indices; run-once, NonlinearBlockGS and NonlinearBlockJac iterations with changing '
+            'sources; a quarter of the cases first run with another source size and are then set up again; '
             'a case is non-trivial when it is a distinct model')
     assumptions = ['exact rational factors of the 33 unit strings used (prefix, reciprocal, quotient, product, power and offset forms) are written down independently of openmdao.utils.units (C06 covers the unit algebra)',
                    'single process, DefaultTransfer; index grammar of C05 (at most one index array per tuple)']
@@ -110,9 +111,9 @@ class C04(Spec):
         fam = rng.choice(FAMILIES)
         return rng.choice(fam), rng.choice(fam)
 
-    def gen_case(self, rng, kindhint):
+    def gen_case(self, rng, kindhint, resize=False):
         nsrc = rng.choice([1, 1, 2])
-        case = {'solver': rng.choice(['runonce', 'nlbgs', 'nlbgs']), 'zc': rng.randrange(1, 4),
+        case = {'solver': rng.choice(['runonce', 'nlbgs', 'nlbgs', 'jac']), 'zc': rng.randrange(1, 4),
                 'sources': [], 'sinks': [], 'autos': []}
         for k in range(nsrc):
             rank = rng.choice([1, 2, 2, 3])
@@ -229,9 +230,43 @@ class C04(Spec):
             if a['units'] is None and any(i['units'] for i in users):
                 a['units'] = users[0]['units'] or [i['units'] for i in users if i['units']][0]
                 a['defaults'] = True
+        # 'resize': a first complete round with another source size, then setup() again.  The other
+        # size must admit the same chains with the same input shapes.
+        case['resize'] = False
+        if resize:
+            for s in case['sources']:
+                users = [i for t in case['sinks'] for i in t['inputs']
+                         if i['style'] != 'auto' and i['src'] == s['name']]
+                if not users or not any(i['chain'] for i in users):
+                    continue
+                for _ in range(12):
+                    alt = list(s['shape'])
+                    ax = rng.randrange(len(alt))
+                    alt[ax] = max(1, alt[ax] + rng.choice([-2, -1, 1, 2, 3]))
+                    if alt == s['shape']:
+                        continue
+                    okk = True
+                    for i in users:
+                        shp = alt
+                        for lv in i['chain']:
+                            r = py_index(shp, lv['rflat'], lv['ix'])
+                            if r is None or r[1] != lv['out_shape'] or not om_bounds_ok(shp, lv['rflat'], lv['ix']):
+                                okk = False
+                                break
+                            shp = r[1]
+                        if okk and (list(shp) or [1]) != i['shape']:
+                            okk = False
+                        if not okk:
+                            break
+                    if okk:
+                        s['shape0'] = alt
+                        s['base0'] = [rng.randrange(-8, 9) for _ in range(prod(alt))]
+                        case['resize'] = True
+                        break
         styles = sorted({i['style'] for t in case['sinks'] for i in t['inputs']})
         nlev = max(len(i['chain']) for t in case['sinks'] for i in t['inputs'])
-        case['kind'] = '%s:%s:levels%d' % ('+'.join(styles), case['solver'], nlev)
+        case['kind'] = '%s:%s:levels%d%s' % ('+'.join(styles), case['solver'], nlev,
+                                             ':resize' if case['resize'] else '')
         return case
 
     def gen(self, tier, rng):
@@ -239,7 +274,7 @@ class C04(Spec):
         cases = []
         for k in range(n):
             hint = [None, None, 'connect', 'implicit', 'auto'][k % 5]
-            cases.append(self.gen_case(rng, hint))
+            cases.append(self.gen_case(rng, hint, resize=(k % 4 == 1)))
         return cases
 
     def search_gen(self, tier, rng):
